@@ -90,6 +90,13 @@ def applyPost (ms : List Member) (post : String) : Option (List Member × List (
   | ["del", n] => do
     let n ← fromHex n
     pure (ms.filter (fun m => m.name != n), [])
+  | ["mfadd", n, d, g, sec] => do
+    -- after signing: a new member plus a new section for it appended to the (signed) manifest
+    let n ← fromHex n
+    let d ← fromHex d
+    let g ← fromHex g
+    let sec ← fromHex sec
+    pure (ms.map (fun m => if m.name == manifestName then ⟨m.name, m.data ++ sec⟩ else m) ++ [⟨n, d⟩], [(d, g)])
   | _ => none
 
 def handle : List String → String
